@@ -87,7 +87,8 @@ func crashPlan(c *vf.Ctx) []caseSpec {
 	}
 	mix := []pc{
 		{profile{Name: "crash-small", Ops: 26}, c.Pick(2, 9)},
-		{profile{Name: "crash-rot", Ops: 12, Fill: 30000}, c.Pick(2, 6)},
+		{profile{Name: "crash-rot", Ops: 12, Fill: 30000}, c.Pick(2, 5)},
+		{profile{Name: "crash-rot2", Ops: 8, Fill: 60000, Deep: true}, c.Pick(1, 3)},
 	}
 	var out []caseSpec
 	for _, m := range mix {
